@@ -1,8 +1,47 @@
+import Qentem.Model.JsonDeps
+import Qentem.Model.JsonStringify
 import Qentem.Driver.Proto
 namespace Qentem.Driver.Json
-open Qentem.Driver
+open Qentem.Driver Qentem.Json
 
-/-- Stub: replaced by the area's model driver. `op` is the first token of the line. -/
-def handle (_op : String) (_args : List String) : String := "bad-op"
+def hexStr (n : Nat) : String := String.ofList (Nat.toDigits 16 n)
+
+def hex16 (n : Nat) : String :=
+  let s := hexStr (n % 2 ^ 64)
+  String.ofList (List.replicate (16 - s.length) '0') ++ s
+
+def dumpStr (s : List Nat) : String := "\"" ++ ".".intercalate (s.map toString) ++ "\""
+
+mutual
+/-- Canonical dump, same syntax as harness/json_harness.cpp. -/
+partial def dump : JVal → String
+  | .undef => "U"
+  | .null => "N"
+  | .tru => "T"
+  | .fals => "F"
+  | .nat n => "n" ++ hexStr n
+  | .int n => "i" ++ hex16 n
+  | .real n => "r" ++ hex16 n
+  | .str s => dumpStr s
+  | .arr xs => "[" ++ ";".intercalate (xs.map dump) ++ "]"
+  | .obj ms => "{" ++ ";".intercalate (ms.map (fun (k, v) => dumpStr k ++ ":" ++ dump v)) ++ "}"
+  | .ptr t => "*" ++ dump t
+end
+
+def widthOf (w : String) : Option Nat :=
+  if w == "1" then some 1 else if w == "2" then some 2 else if w == "4" then some 4 else if w == "W" then some 4 else none
+
+/-- `jsparse <w> <units>` → dump of the model's `JSON::Parse` (or `FAULT …`). -/
+def handle (op : String) (args : List String) : String :=
+  match op, args with
+  | "jsparse", [w, u] =>
+    match widthOf w, parseNats u with
+    | some w, some l =>
+      match parse (jsonDeps w) l.toArray with
+      | .ok v => dump v
+      | .error (.oobRead i n) => s!"FAULT oobRead {i} {n}"
+      | .error .fuel => "FAULT fuel"
+    | _, _ => "bad-op"
+  | _, _ => "bad-op"
 
 end Qentem.Driver.Json
